@@ -265,7 +265,7 @@ def _parse_event_buffer(read_buffer: bytes, n_bytes: int) -> list[tuple[int, str
         fni = ctypes.cast(read_buffer, LPFNI)[0]  # type: ignore[arg-type]
         ptr = ctypes.addressof(fni) + FileNotifyInformation.FileName.offset
         filename = ctypes.string_at(ptr, fni.FileNameLength)
-        results.append((fni.Action, filename.decode("utf-16")))
+        results.append((fni.Action, filename.decode("utf-16-le")))
         num_to_skip = fni.NextEntryOffset
         if num_to_skip <= 0:
             break
